@@ -280,7 +280,7 @@ def _r_oid(c):
     except (R.BignError, ValueError):
         return {'ret': E['BAD_OID']}
     return {'ret': 0, 'count': len(der), 'der': der, 'short_rejected': 1}
-reg(Composite('bignOidToDER', _impl_oid, _r_oid, group='bign'))
+reg(Composite('bign.oidToDER', _impl_oid, _r_oid, group='bign'))
 
 # ------------------------------------------------------------------ alphabets (shared with C02)
 _V = None
@@ -500,7 +500,7 @@ def _corpus(tier):
     for _, pb in bad_params():
         out.append(('bignParamsVal', dict(params=pb)))
     for s in OID_STRINGS_OK + OID_STRINGS_BAD:
-        out.append(('bignOidToDER', dict(oid=s)))
+        out.append(('bign.oidToDER', dict(oid=s)))
     for l in LEVELS:
         PB = params_bytes(l); no = l // 4; q = q_of(l); p = p_of(l)
         ds = d_alphabet(l); hs = h_alphabet(l); ks = k_alphabet(l); tm = tape_menu(l)
@@ -750,5 +750,5 @@ def sweep_cases(tier):
         X('bignKeyWrap', base['bignKeyWrap'], E['BAD_INPUT'], key=None, key_len=32)
         X('bignKeyUnwrap', base['bignKeyUnwrap'], E['BAD_INPUT'], token=None, token_len=len(tok))
     for s_ in OID_STRINGS_BAD:
-        out.append(('bignOidToDER', dict(oid=s_)))
+        out.append(('bign.oidToDER', dict(oid=s_)))
     return out
